@@ -84,7 +84,7 @@ Proof. exact single_reconnect. Qed.
 Theorem C12_reconnect_path_partial :
   forall nconn ids s k,
     reachable nconn ids init_state s -> status s k = true -> broken s k = false ->
-    exists s', run nconn ids s [LDrop k; LPingFail k; LReconnectEnter k; LReconnectDone k] = Some s' /\
+    exists s', exec nconn ids s [LDrop k; LPingFail k; LReconnectEnter k; LReconnectDone k] = Some s' /\
                status s' k = true /\ broken s' k = false /\ loops s' k = 0.
 Proof. exact reconnect_path_partial. Qed.
 
@@ -95,7 +95,7 @@ Proof. exact reconnect_path_partial. Qed.
 Example C12_example :
   let ids := fun i => (100 + N.of_nat i)%N in
   exists s,
-    run 2 ids init_state
+    exec 2 ids init_state
       [LRegister 0; LRegister 1; LPick 0; LRegister 2; LSendOk 0; LPick 1; LPick 2; LSendOk 2; LSendOk 1;
        LEmit 0 (PAnswer 102 72); LEmit 1 (PAnswer 999 1); LEmit 0 PPong; LEmit 0 (PAnswer 100 70);
        LEmit 1 (PAnswer 100 71); LEmit 1 PJunk;
